@@ -256,4 +256,29 @@ def c10dial (a : List String) (obs : String) : String × String :=
     (model, verdict)
   | _ => ("BADOP", "skip")
 
+/-- dialtls: model = hostport + tlsServerName; oracle = the name in the raw URL (no userinfo, no brackets
+    in the generated URLs), or the configured name. -/
+def c10dialtls (a : List String) (obs : String) : String × String :=
+  match a with
+  | [urlS, mode] =>
+    let f := obs.splitOn " "
+    let get (k : String) : String := ((f.filter (·.startsWith (k ++ "="))).headD "").drop (k.length + 1) |>.toString
+    let cfgName : Option Bytes := if mode == "nil" then none else if mode == "empty" then some [] else some (hexOr (mode.drop 6).toString)
+    let uhost := hexOr (get "uhost")
+    let (hn, addr) := hostport uhost (strBytes ":443")
+    let (sni, after) := tlsServerName cfgName hn
+    let model := s!"err addr={Bytes.toHex addr} sni={Bytes.toHex sni} cfgafter={if cfgName.isSome then Bytes.toHex after else "-"} uhost={get "uhost"}"
+    let verdict :=
+      match splitURL (hexOr urlS) with
+      | none => "skip"
+      | some (_, auth, _) =>
+        let host := auth.takeWhile (· != 58)
+        let want := match cfgName with | some (c :: cs) => c :: cs | _ => host
+        if get "sni" == "-" then "bad:no-tls-session-requested"
+        else if hexOr (get "sni") != want then "bad:tls-session-for-another-host"
+        else if cfgName.isSome && hexOr (get "cfgafter") != cfgName.getD [] then "bad:callers-tls-config-modified"
+        else "ok"
+    (model, verdict)
+  | _ => ("BADOP", "skip")
+
 end Ws.Driver
